@@ -1110,7 +1110,62 @@ def search(ctx):
         for key, fm in FORMATS.items():
             run_format(ctx, key, ctx.n(*fm["n"]) * 3, do_corr=False)
     vasp_spellings(ctx)
+    molden_gto_blocks(ctx)
     _tokens.search(ctx)  # exploration: log parsers without a published layout
+
+
+def molden_gto_blocks(ctx):
+    """Molden [GTO]: every block names its atom by sequence number, so blocks may come in any order and atoms without
+    basis functions have none.  Standard-conforming files written from a random true wavefunction (shared generator of
+    C05) with permuted blocks / a function-less first atom must load to that wavefunction, shells on the named atoms."""
+    import numpy as np
+
+    from .. import gto
+    from .. import vendorfiles as vf
+
+    rng = ctx.rng
+    done = 0
+    for i in range(ctx.n(60, 400) * 3):
+        if done >= ctx.n(60, 400):
+            break
+        case = vf.gen_true(rng, "standard", "molden", max_l=rng.choice([1, 2, 2, 3]))
+        if case is None:
+            continue
+        natom = len(case["zs"])
+        mode = rng.choice(["permuted", "ghost-first", "ghost-middle"]) if natom > 1 else "ghost-first"
+        case = dict(case)
+        shells = [dict(sh) for sh in case["shells"]]
+        order = list(range(natom))
+        if mode == "permuted":
+            while order == list(range(natom)):
+                rng.shuffle(order)
+        else:
+            pos = 0 if mode == "ghost-first" else rng.randrange(1, natom)
+            case["zs"] = case["zs"][:pos] + [rng.randint(1, 10)] + case["zs"][pos:]
+            case["coords"] = case["coords"][:pos] + [[9.5, -9.25, 8.75]] + case["coords"][pos:]
+            for sh in shells:
+                if sh["ic"] >= pos:
+                    sh["ic"] += 1
+            order = list(range(natom + 1))
+        # shells in the order the blocks are written, MO rows permuted with them
+        sizes = [len(gto.molden_labels(sh["l"], sh["kind"])) for sh in shells]
+        offs = np.cumsum([0, *sizes])
+        idx = [k for ia in order for k, sh in enumerate(shells) if sh["ic"] == ia]
+        rows = np.concatenate([np.arange(offs[k], offs[k + 1]) for k in idx]) if idx else np.arange(0)
+        case["shells"] = [shells[k] for k in idx]
+        case["Ca"] = case["Ca"][rows]
+        case["Cb"] = None if case["Cb"] is None else case["Cb"][rows]
+        enc = vf.encode(case, "standard", rng)
+        text = vf.write_molden(case, enc, rng, atom_order=order, skip_empty=True)
+        r = F.real_load(text.encode(), "molden")
+        bad = ("load", r.err) if not r.ok else vf.compare_loaded(case, r.value)
+        done += 1
+        ctx.count("spec-py:molden-gto-blocks", text[:3000], mode + ("" if bad is None else "/FAIL"))
+        if bad:
+            ctx.fail(f"molden:spec:gto-blocks:{mode}:{bad[0]}",
+                     f"Molden file with {mode} [GTO] blocks is not loaded as written: {bad[0]}: {bad[1]}",
+                     {"kind": "molden-text", "text": text, "case": {"zs": case["zs"], "coords": case["coords"], "unit": case["unit"],
+                      "shells": case["shells"], "Ca": case["Ca"].tolist(), "Cb": None if case["Cb"] is None else case["Cb"].tolist()}})
 
 
 def vasp_spellings(ctx):
@@ -1150,6 +1205,14 @@ def replay(ctx, obj):
     inp = obj["input"]
     if inp.get("kind") == "tokens":
         return _tokens.replay(ctx, obj)
+    if inp.get("kind") == "molden-text":
+        import numpy as np
+
+        from .. import vendorfiles as vf
+
+        case = dict(inp["case"], Ca=np.array(inp["case"]["Ca"]), Cb=None if inp["case"]["Cb"] is None else np.array(inp["case"]["Cb"]))
+        r = F.real_load(inp["text"].encode(), "molden")
+        return (not r.ok) or vf.compare_loaded(case, r.value) is not None
     if inp.get("kind") == "readers":
         fm = FORMATS[inp["format"]]
         return fm["impl"](bytes.fromhex(inp["hex"]), inp["expect"], {"kind": inp.get("sub")}) != inp["expect"]
